@@ -1,16 +1,23 @@
-//@ assume: Hash is an abstract value with decidable equality (PartialEq specified as equality of an underlying ghost id: blake2b digests compared bytewise); `(a, b).hash_with_index(i)` is an uninterpreted function sp_h2(a, b, i) (that it is collision-resistant is a cryptographic assumption, not used here); ReadonlyPMMR::root / PMMR::root and BitmapAccumulator::root are uninterpreted readings of the MMR / accumulator state (root is under contract in C07/pmmr_root). HeaderVersion comparison is numeric.
-//@ assume: T5: `impl<'a> Extension<'a>` fields (output_pmmr, rproof_pmmr, kernel_pmmr, bitmap_accumulator) => abstract PMMR values with a root; T6: `.map_err(|_| Error::InvalidRoot)?` => `?` against an abstract root() that already returns the final error type; `header.version < HeaderVersion(3)` => `ver_lt(header.version, HeaderVersion(3))`; the tuple comparison in validate_sizes keeps its text; log macros removed (T3).
+//@ assume: Hash is an abstract value with decidable equality (PartialEq specified as equality of an underlying ghost id: blake2b digests compared bytewise); `(a, b).hash_with_index(i)` is an uninterpreted function sp_h2(a, b, i) (that it is collision-resistant is a cryptographic assumption, not used here); ReadonlyPMMR::root / PMMR::root and BitmapAccumulator::root are uninterpreted readings of the MMR / accumulator state (root is under contract in C07/pmmr_root). HeaderVersion comparison is numeric (PartialOrd implemented and specified on the wrapped u16, as the real derive does).
+//@ assume: T5: `impl<'a> Extension<'a>` fields (output_pmmr, rproof_pmmr, kernel_pmmr, bitmap_accumulator) => abstract PMMR values with a root; T6: `.map_err(|_| Error::InvalidRoot)?` => `?` against an abstract root() that already returns the final error type; the tuple comparison in validate_sizes keeps its text; log macros removed (T3).
 //@ assume: decided here (C15, 'A block whose output root commits to any other bitmap is rejected'): for header version >= 3 the output root a header must carry is H(output MMR root, BITMAP ACCUMULATOR root, header.output_mmr_size) -- the accumulator's root is one of the two hashed values -- and the plain output MMR root before; TxHashSetRoots::validate returns Ok IF AND ONLY IF the header's output root equals that value AND its range-proof and kernel roots equal ours; Extension::roots / TxHashSet::roots take the bitmap root from THIS state's accumulator; Extension::validate_roots refuses any non-genesis header for which validate fails; validate_sizes compares the output, range-proof (= output) and kernel sizes.
 //@ assumed_items: 4
 //@ fns: OutputRoots::root, OutputRoots::output_root, OutputRoots::merged_root, TxHashSetRoots::output_root, TxHashSetRoots::validate, Extension::roots, Extension::validate_roots, Extension::validate_sizes, TxHashSet::roots
-//@ import: use vstd::std_specs::cmp::PartialEqSpecImpl;
+//@ import: use vstd::std_specs::cmp::{PartialEqSpecImpl, PartialOrdSpecImpl};
+//@ import: use core::cmp::Ordering;
 #[derive(Clone, Copy)]
 pub struct Hash { pub v: u64 }
 impl PartialEqSpecImpl for Hash { open spec fn obeys_eq_spec() -> bool { true } open spec fn eq_spec(&self, other: &Hash) -> bool { self.v == other.v } }
 impl PartialEq for Hash { fn eq(&self, other: &Hash) -> (r: bool) { self.v == other.v } }
 #[derive(Clone, Copy)]
 pub struct HeaderVersion(pub u16);
-pub fn ver_lt(a: HeaderVersion, b: HeaderVersion) -> (r: bool) ensures r == (a.0 < b.0) { a.0 < b.0 }
+impl PartialEqSpecImpl for HeaderVersion { open spec fn obeys_eq_spec() -> bool { true } open spec fn eq_spec(&self, other: &HeaderVersion) -> bool { self.0 == other.0 } }
+impl PartialEq for HeaderVersion { fn eq(&self, other: &HeaderVersion) -> (r: bool) { self.0 == other.0 } }
+impl PartialOrdSpecImpl for HeaderVersion {
+    open spec fn obeys_partial_cmp_spec() -> bool { true }
+    open spec fn partial_cmp_spec(&self, other: &HeaderVersion) -> Option<Ordering> { if self.0 < other.0 { Some(Ordering::Less) } else if self.0 == other.0 { Some(Ordering::Equal) } else { Some(Ordering::Greater) } }
+}
+impl PartialOrd for HeaderVersion { fn partial_cmp(&self, other: &HeaderVersion) -> (r: Option<Ordering>) { if self.0 < other.0 { Some(Ordering::Less) } else if self.0 == other.0 { Some(Ordering::Equal) } else { Some(Ordering::Greater) } } }
 pub struct BlockHeader { pub version: HeaderVersion, pub height: u64, pub output_root: Hash, pub range_proof_root: Hash, pub kernel_root: Hash, pub output_mmr_size: u64, pub kernel_mmr_size: u64 }
 pub enum Error { InvalidRoot, InvalidMMRSize, Other }
 pub uninterp spec fn sp_h2(a: Hash, b: Hash, idx: u64) -> Hash;
@@ -33,7 +40,6 @@ impl OutputRoots {
 //@+    r == sp_h2(self.pmmr_root, self.bitmap_root, header.output_mmr_size),
 //@ end
 //@ extract chain/src/types.rs :: impl OutputRoots::root
-//@   rewrite `header.version < HeaderVersion(3)` => `ver_lt(header.version, HeaderVersion(3))` x?
 //@   ensures:
 //@+    r == sp_expected_output_root(*self, *header),
 //@ end
